@@ -99,7 +99,7 @@ def tiger_getchar_ord_stack(vm):
         vm.readline()
 
     if len(vm.input_buffer) > 0:
-        c = ord(vm.input_buffer[vm.input_pos])
+        c = ord(vm.input_buffer[vm.input_pos]) & 0xFFFF
         vm.input_pos += 1
     else:
         c = 0
@@ -127,7 +127,7 @@ def tiger_getline_epilogue_stack(vm):
     addr = vm.registers[1]
     vm.store_memory(addr, len(vm.input_buffer))
     for i, c in enumerate(vm.input_buffer, start=1):
-        vm.store_memory(addr + i, ord(c))
+        vm.store_memory(addr + i, ord(c) & 0xFFFF)
 
 
 # The standard library with parameters-on-the-stack functions.
@@ -645,7 +645,7 @@ def tiger_getchar_ord_reg(vm):
         vm.readline()
 
     if len(vm.input_buffer) > 0:
-        c = ord(vm.input_buffer[vm.input_pos])
+        c = ord(vm.input_buffer[vm.input_pos]) & 0xFFFF
         vm.input_pos += 1
     else:
         c = 0
@@ -673,7 +673,7 @@ def tiger_getline_epilogue_reg(vm):
     addr = vm.registers[1]
     vm.store_memory(addr, len(vm.input_buffer))
     for i, c in enumerate(vm.input_buffer, start=1):
-        vm.store_memory(addr + i, ord(c))
+        vm.store_memory(addr + i, ord(c) & 0xFFFF)
 
 
 def tiger_tstrcmp_reg(vm):
